@@ -118,7 +118,13 @@ def run_shard(ctx):
     while not ctx.out_of_time():
         rng = ctx.rng(i)
         i += 1
-        cfg, stmts, _ = workloads.generic_case(rng, max_len=max_len if rng.random() < .2 else 60)
+        if i % 25 == 7:
+            cfg, stmts, _t = workloads.boundary_frame_case(rng)
+            cfg["integration"] = "generic"
+            cfg["generalized"] = cfg["rdf_star"] = True
+            ctx.observe("boundary-length-frames")
+        else:
+            cfg, stmts, _ = workloads.generic_case(rng, max_len=max_len if rng.random() < .2 else 60)
         r = roundtrip(cfg, stmts)
         ctx.observe("roundtrips-compared")
         ctx.observe(f"entry:{cfg['entry']}")
